@@ -165,6 +165,7 @@ def applyCmd (ks : Keyspace) (c : Cmd) : Option Keyspace :=
         | [.b v] => some (put ks k (.str v) 0)
         | _ => none
       else if name = b!"del" then some (del ks k)
+      else if name = b!"exists" then some ks          -- a read: the keyspace is unchanged
       else if name = b!"pexpire" then
         match rest with
         | [.b t] => doPexpire ks k t
